@@ -12,14 +12,18 @@ PROP = {'technique': 'property-based testing (rapid): model-based fault historie
  'level_note': 'End-to-end over loopback QUIC with the smallest legal idle timeout (4 s); interleavings inside one call are sampled '
                'by the scheduler, not enumerated. Trusts the harness model and the in-process server of the same tree.',
  'rule': 'History = start (lazy|eager, fast-open or not) + 4..18 ops drawn state-dependently from {tcp(hold), udp, kill(sock|kick|'
-         'blackhole), serverDown(fast|real timeout), serverUp(same|new port), failNext(config|factory|auth, k), exhaustStreams, '
+         'blackhole), serverDown(fast|real timeout), serverUp(same|new port), failNext(config|factory|auth, k), exhaustStreams(freeIfBlockedFor), '
          'release, Close} + Close + two calls after Close. Non-trivial: >=2 kills with a successful call between them, or a failing '
          'reconnect attempt, or Close after a kill. Distinct = distinct op sequence (with arguments). Concurrent check: non-trivial '
          '= at least one kill took effect and at least two connects happened; distinct = (workers, lazy, per-phase action@point).',
  'assumptions': ['loss of a connection is noticed within the QUIC idle timeout (4 s configured); calls are given 120 s before the run '
                  'is declared inconclusive',
-                 'a ClosedError on a connection the harness did not kill is treated as an environment-caused loss (counted as class '
-                 'spurious-loss), not as a violation',
+                 'a ClosedError on a connection the harness did not kill is a violation when the server saw that connection end only '
+                 'by the client\'s own CONNECTION_CLOSE(0x100) (EventLogger.Disconnect err == nil: the connection was healthy and the '
+                 'client tore it down, e.g. a stream limit treated as loss); otherwise it is an environment-caused loss (class '
+                 'spurious-loss), not a violation',
+                 'at the stream limit a call may fail with the limit error as such or block until the harness frees a slot '
+                 '(after a drawn 0.3-6 s) and then succeed on the same connection',
                  'closing a superseded socket may be asynchronous: the census waits up to 3 s after the call returned'],
  'tests': [{'name': 'TestVerifC16_Regress_DeadClientSocketClosed', 'unit': UNIT, 'kind': 'plain', 'timeout_quick': 300, 'timeout_thorough': 300},
            {'name': 'TestVerifC16_Regress_StreamLimitRecoverable', 'unit': UNIT, 'kind': 'plain', 'timeout_quick': 300, 'timeout_thorough': 300},
